@@ -63,11 +63,12 @@ def XState.OpOK (x : XState) : XOp → Prop
   | _ => True
 
 /-- **The invariant of the interleaved execution**, holding after EVERY step.
-* The state satisfies `WF3x` = `WF2` ∧ `LogCoupled` ∧ `CurOrd` ∧ `RecFits` ∧ `SegLast`, where `CurOrd` is
-  `CurNewest` without its clause `empty_open` ("only writable segments are empty"): that clause is FALSE
-  while an empty segment is being compacted (sealed and empty) - see `M06_curNewest_impossible` below -
-  and is only needed for the clean reopen, which is not a step here. `CurNewest` itself holds after
-  every step as long as no compaction is begun on an empty segment (`M06_step_newest`).
+* The state satisfies `WF3x` = `WF2` ∧ `LogCoupled` ∧ `CurOrd` ∧ `SegLast`, where `CurOrd` is the order
+  invariant "sequence ids distinct and bounded by `maxSeq`, every writable segment is the newest".
+  Since fix F13 (`reopenClean` keeps `Full` on empty segments) this IS M05's `CurNewest`, and `WF3x` is
+  M05's `WF3` (`M06_curNewest`, `M06_wf3` below); the model precondition `RecFits` is gone. (Before the
+  fix `CurNewest` had a fourth clause `empty_open`, "only writable segments are empty", which is false
+  while an empty segment is being compacted, so that no step-invariant could imply it.)
   M05's `SegLast` itself is the right form for the intermediate states: a live record is COPIED to
   the newest segment and its slot repointed, which keeps "the slot points into the newest segment
   holding a record of the key"; dropped records are not pointed at.
@@ -91,34 +92,17 @@ def XState.RunOK : XState → KV Bytes Bytes → List XOp → Prop
 
 def XState.runOps (x : XState) (ops : List XOp) : XState := ops.foldl (fun s op => (s.step op).1) x
 
-/-- `OpOK`, and a compaction is begun only on a segment that holds data (under which `CurNewest` is
-kept too; pogreb never picks an empty segment: its fragmentation is 0). -/
-def XState.OpOK' (x : XState) : XOp → Prop
-  | .cbegin id => x.st.CompactOK (.compact id) ∧ ∀ s ∈ x.st.segs, s.id = id → s.data ≠ []
-  | op => x.OpOK op
-
-def XState.OpsOK' : XState → List XOp → Prop
-  | _, [] => True
-  | x, op :: ops => x.OpOK' op ∧ XState.OpsOK' (x.step op).1 ops
-
 -- helper ------------------------------------------------------------------------------------
 
 theorem XState.XInv.wf2 {x : XState} (h : x.XInv) : x.st.WF2 := h.1.1
 theorem XState.XInv.logCoupled {x : XState} (h : x.XInv) : x.st.LogCoupled := h.1.2.1
 theorem XState.XInv.curOrd {x : XState} (h : x.XInv) : x.st.CurOrd := h.1.2.2.1
-theorem XState.XInv.recFits {x : XState} (h : x.XInv) : x.st.RecFits := h.1.2.2.2.1
-theorem XState.XInv.segLast {x : XState} (h : x.XInv) : x.st.SegLast := h.1.2.2.2.2
+theorem XState.XInv.segLast {x : XState} (h : x.XInv) : x.st.SegLast := h.1.2.2.2
 theorem XState.XInv.cursor {x : XState} (h : x.XInv) {c : MState.CompState} (hc : x.comp = some c) :
     ∃ sid S, MState.CursorAt x.st c sid S := h.2 c hc
-/-- With `CurNewest`, the invariant contains M05's `WF3`. -/
-theorem XState.XInv.wf3 {x : XState} (h : x.XInv) (hN : x.st.CurNewest) : x.st.WF3 := h.1.wf3 hN
-
-theorem XState.OpOK'.ok {x : XState} {op : XOp} (h : x.OpOK' op) : x.OpOK op := by
-  cases op with
-  | cbegin id => exact h.1
-  | user op => exact h
-  | crecord => exact h
-  | cend => exact h
+/-- The invariant contains M05's `CurNewest` and `WF3`. -/
+theorem XState.XInv.curNewest {x : XState} (h : x.XInv) : x.st.CurNewest := h.curOrd.newest
+theorem XState.XInv.wf3 {x : XState} (h : x.XInv) : x.st.WF3 := h.1.wf3'
 
 /-- A user operation on a `WF3x` state (`MState.step_wf3` for `WF3x`). -/
 theorem MState.user_wf3x (st : MState) (h : st.WF3x) (op : MOp) (hu : isUserOp op = true) (hop : MOpOK op) :
@@ -256,9 +240,9 @@ theorem XState.step_cend_not (x : XState) (c : MState.CompState) (hc : x.comp = 
 
 -- THEOREMS ------------------------------------------------------------------------------------------
 
-theorem M06_init (maxSeg : Nat) (hfit : headerSize + 10 + 2 ^ 16 + 2 ^ 31 ≤ maxSeg) (seed : UInt32) :
+theorem M06_init (maxSeg : Nat) (seed : UInt32) :
     (XState.mk (MState.init maxSeg seed) none).XInv :=
-  ⟨(MState.init_wf3 maxSeg hfit seed).x, fun _ h => by cases h⟩
+  ⟨(MState.init_wf3 maxSeg seed).x, fun _ h => by cases h⟩
 
 /-- One step of the interleaved execution (user operation, begin, one record, end): the output is the
 specification's, the invariant is kept, the contents follow the specification (compaction steps do
@@ -342,83 +326,33 @@ theorem M06_crash_anywhere (x : XState) (h : x.XInv) (seed : UInt32) :
 
 /-! ### `CurNewest`
 
-The task asked for an `XInv` that implies `CurNewest`. No invariant that is established by `M06_init`
-and kept by `M06_step` can imply `CurNewest` (`M06_curNewest_impossible`): `cbegin` on the EMPTY
-segment of the fresh database is admissible (`OpOK`: it holds no delete record) and yields a sealed
-empty segment, which contradicts `SegsNewest.empty_open`. So `XInv` contains `CurOrd` (the other three
-clauses of `CurNewest`), and `CurNewest` is kept by every step other than a `cbegin` on an empty
-segment (`M06_step_newest`, `M06_run_newest`; precondition `OpOK'`). -/
+The task asked for an `XInv` that implies `CurNewest`. Before fix F13 that was impossible
+(`M06_curNewest_impossible`, removed): `CurNewest` contained the clause `empty_open` ("only writable
+segments are empty"), and `cbegin` on the EMPTY segment of the fresh database is admissible (`OpOK`: it
+holds no delete record) and yields a sealed empty segment - see the `#eval`. That clause was needed for
+the OLD clean reopen only; with the repaired `reopenClean` it is gone, `CurNewest` is `CurOrd`, and
+`XInv` implies `CurNewest` and M05's full `WF3` in EVERY reachable state, without the former restriction
+`OpOK'` ("no compaction is begun on an empty segment"). -/
 
 #eval ((XState.mk (MState.init (2 ^ 32) 0) none).step (.cbegin 0)).1.st.segs
--- [{ id := 0, seq := 1, data := [], full := true }]   (sealed and empty)
+-- [{ id := 0, seq := 1, data := [], full := true }]   (sealed and empty: admissible, and harmless now)
 
-theorem M06_curNewest_impossible :
-    ¬ ∃ I : XState → Prop, I (XState.mk (MState.init (2 ^ 32) 0) none) ∧
-      (∀ x, I x → ∀ op, x.OpOK op → I (x.step op).1) ∧ (∀ x, I x → x.st.CurNewest) := by
-  rintro ⟨I, h0, hstep, hN⟩
-  have hsegs : (MState.init (2 ^ 32) 0).segs = [⟨0, 1, [], false⟩] := rfl
-  have hop : (XState.mk (MState.init (2 ^ 32) 0) none).OpOK (.cbegin 0) := by
-    intro s hs _
-    left
-    show MState.hasDelete s = false
-    rw [hsegs] at hs
-    rw [List.mem_singleton.1 hs]
-    show List.any (scan []).1 _ = false
-    rw [scan_nil]; rfl
-  have h1 := hN _ (hstep _ h0 _ hop)
-  have hsegs1 : ((XState.mk (MState.init (2 ^ 32) 0) none).step (.cbegin 0)).1.st.segs =
-      [⟨0, 1, [], true⟩] := by
-    rw [XState.step_cbegin _ 0 ⟨0, 1, [], false⟩ rfl rfl]
-    rfl
-  have := h1.empty_open ⟨0, 1, [], true⟩ (by rw [hsegs1]; exact List.mem_singleton.2 rfl) rfl
-  cases this
+/-- **`XInv` implies `CurNewest`** (was: impossible for any step-invariant, `M06_curNewest_impossible`). -/
+theorem M06_curNewest (x : XState) (h : x.XInv) : x.st.CurNewest := h.curNewest
 
-/-- `CurNewest` is kept by every step that does not begin a compaction of an empty segment. -/
-theorem M06_step_newest (x : XState) (h : x.XInv) (hN : x.st.CurNewest) (op : XOp) (hop : x.OpOK' op) :
-    (x.step op).1.st.CurNewest := by
-  have h3 := h.wf3 hN
-  cases op with
-  | user o =>
-    by_cases hu : isUserOp o = true
-    · rw [XState.step_user x o hu]; exact MState.user_newest x.st h3 o hu hop
-    · rw [XState.step_user_not x o hu]; exact hN
-  | cbegin id =>
-    cases hcomp : x.comp with
-    | some c => rw [XState.step_cbegin_busy x id c hcomp]; exact hN
-    | none =>
-      cases hseg : x.st.seg? id with
-      | none => rw [XState.step_cbegin_absent x id hseg]; exact hN
-      | some s =>
-        rw [XState.step_cbegin x id s hcomp hseg]
-        exact MState.compactBegin_newest h.1.1.1.ids hN id hseg
-          (hop.2 s (MState.seg?_some hseg).1 (MState.seg?_some hseg).2)
-  | crecord =>
-    cases hcomp : x.comp with
-    | none => rw [XState.step_none x hcomp _ (Or.inl rfl)]; exact hN
-    | some c =>
-      rw [XState.step_crecord x c hcomp]
-      obtain ⟨sid, S, hcur⟩ := h.2 c hcomp
-      exact MState.record_newest h3 hcur
-  | cend =>
-    cases hcomp : x.comp with
-    | none => rw [XState.step_none x hcomp _ (Or.inr rfl)]; exact hN
-    | some c =>
-      obtain ⟨sid, S, hcur⟩ := h.2 c hcomp
-      cases ht : c.todo with
-      | cons p rest =>
-        rw [XState.step_cend_not x c hcomp (Or.inr (by rw [ht]; exact List.cons_ne_nil _ _))]
-        exact hN
-      | nil =>
-        rw [XState.step_cend x c hcomp sid hcur.source ht]
-        exact SegsNewest.filter hN _
+/-- `XInv` implies M05's `WF3`. -/
+theorem M06_wf3 (x : XState) (h : x.XInv) : x.st.WF3 := h.wf3
 
-/-- Along a run that never begins a compaction of an empty segment, `WF3` (with `CurNewest`) holds. -/
-theorem M06_run_newest (ops : List XOp) (x : XState) (h : x.XInv) (hN : x.st.CurNewest)
-    (hops : x.OpsOK' ops) : (x.runOps ops).XInv ∧ (x.runOps ops).st.WF3 := by
-  induction ops generalizing x with
-  | nil => exact ⟨h, h.wf3 hN⟩
-  | cons op rest ih =>
-    obtain ⟨hop, hrest⟩ := hops
-    exact ih (x.step op).1 (M06_step x h op hop.ok).2.1 (M06_step_newest x h hN op hop) hrest
+/-- `CurNewest` is kept by EVERY admissible step (formerly: by every step that does not begin a
+compaction of an empty segment, `OpOK'`, and given `CurNewest` before). -/
+theorem M06_step_newest (x : XState) (h : x.XInv) (op : XOp) (hop : x.OpOK op) :
+    (x.step op).1.st.CurNewest :=
+  (M06_step x h op hop).2.1.curNewest
+
+/-- Along EVERY admissible run `WF3` (with `CurNewest`) holds (formerly: along runs that never begin a
+compaction of an empty segment, `OpsOK'`, from a state with `CurNewest`). -/
+theorem M06_run_newest (ops : List XOp) (x : XState) (h : x.XInv)
+    (hops : x.OpsOK ops) : (x.runOps ops).XInv ∧ (x.runOps ops).st.WF3 :=
+  ⟨(M06_run ops x h hops).2.1, (M06_run ops x h hops).2.1.wf3⟩
 
 end Pogreb
